@@ -54,7 +54,7 @@ func checkC04(e *RunEnv) *CheckResult {
 	seedB := append(append([]Step{}, seedA...), Write("big", v1("big")), Run("add", "a", "d", "ad", "d-x", "d0", "a b", "big"), Run("commit", "-m", "c1"))
 	spec := &Spec{
 		Seeds: []Seed{{"S0+files", seedA}, {"S1+all-tracked", seedB}},
-		Depth: e.pick(3, 4),
+		Depth: e.depth(3, 4),
 		Steps: func(n *Node) []Step {
 			a := n.Abs()
 			var steps []Step
